@@ -138,7 +138,9 @@ var evTypeNames = []string{"USER_START", "USER_END", "CRED_ACQ", "USER_LOGIN", "
 
 // apiEvent builds the coalesced event an op stands for (correlator API level).
 func apiEvent(i int, o hop) *aucoalesce.Event {
-	e := &aucoalesce.Event{Timestamp: opTime(i), Sequence: uint32(1000 + i), Result: "success"}
+	// kernel serial numbers: the order in which completed events reach the
+	// correlator need not be ascending (late records), and the 32-bit serial wraps
+	e := &aucoalesce.Event{Timestamp: opTime(i), Sequence: uint32(uint64(4294967200) + uint64(scramble(i)%193)), Result: "success"}
 	e.Summary.Action = "act" + strconv.Itoa(i)
 	e.Summary.How = "how" + strconv.Itoa(i)
 	e.Summary.Object.Primary = "obj" + strconv.Itoa(i)
@@ -147,6 +149,10 @@ func apiEvent(i int, o hop) *aucoalesce.Event {
 		e.Type = auparse.AUDIT_LOGIN
 		e.Session = sesString(o.S)
 		e.Process.PID = strconv.Itoa(pidValue(o.P))
+		e.Data = map[string]string{"old-auid": "4294967295", "tty": "(none)", "old-ses": "4294967295"}
+		if o.Old != 0 {
+			e.Data["old-ses"] = sesString(o.Old)
+		}
 	case "disp":
 		e.Type = auparse.AUDIT_CRED_DISP
 		e.Session = sesString(o.S)
